@@ -48,9 +48,10 @@ Definition model_obs_t (c : cfg) (es : list tev) : list obs := map proj_mob (tru
 Definition agrees (k : case) : bool :=
   match k with Case c es os => list_eqb obs_eqb (model_obs_t c es) os end.
 
-(* the property (Spec.c04_class) on the OBSERVED trace *)
+(* the property (Spec.c04_class, with class 1 refined by Spec.mix_class into 8 body delivered under
+   another token / 9 bodies of distinct tokens spliced: Spec.c04_class_x) on the OBSERVED trace *)
 Definition pclass (k : case) : N :=
-  match k with Case c es os => c04_class c (untimed es) os end.
+  match k with Case c es os => c04_class_x c (untimed es) os end.
 
 Definition mismatches (cs : list case) : list N := bad_indices (fun c => negb (agrees c)) cs.
 Definition property_failures (cs : list case) : list (N * N) := classes pclass cs.
